@@ -3,14 +3,14 @@ CONSTANTS
  Part = "thm"
  Base = 2
  WordLen = 1
- MaxW = 160
+ MaxW = 128
  MaxN = 8
  OntoN = 7
  PairN = 7
  NaiveN = 6
  MaxRotN = 128
- MaxResM = 65
- MaxResE = 6
+ MaxResM = 40
+ MaxResE = 5
  NumLen = 1
  ProcN = 0
 INVARIANT Holds
